@@ -32,21 +32,125 @@ Proof.
   apply np_cbind_not_panic; [apply np_action_init_total|]. intros r' _. apply IH.
 Qed.
 
-Lemma np_compile_actions_total r text : np_compile_actions r text <> Panic.
+(* ---- SecDefaultAction / mergeActions ---- *)
+Definition np_defs_ok (m : np_defmap) : Prop := Forall (fun e => existsb ra_disr (snd e) = true) m.
+
+Lemma np_pda_loop_spec : forall acts p h r, np_pda_loop acts p h = Ok r -> snd r = true -> h = true \/ existsb ra_disr acts = true.
 Proof.
-  unfold np_compile_actions. apply np_bind_not_panic; [apply np_parse_actions_total|].
-  intros acts _. apply np_apply_actions_total.
+  induction acts as [|a t IH]; intros p h r; cbn [np_pda_loop existsb].
+  - intros H; inversion H; cbn. auto.
+  - destruct (bytes_eqb (ra_key a) (bs "phase")).
+    + destruct (np_parse_phase (ra_val a)); [|discriminate]. intros H Hr.
+      destruct (IH _ _ _ H Hr) as [K|K]; [left; exact K|right; rewrite K; apply orb_true_r].
+    + destruct (np_is_metadata (ra_key a)); [discriminate|].
+      destruct (bytes_eqb (ra_key a) (bs "t")); [discriminate|].
+      intros H Hr. destruct (IH _ _ _ H Hr) as [K|K].
+      * apply orb_true_iff in K as [K|K]; [left; exact K|right; rewrite K; reflexivity].
+      * right; rewrite K; apply orb_true_r.
 Qed.
 
-Lemma np_parse_rule_total b data : np_parse_rule b data <> Panic.
+Lemma np_parse_default_total raw : np_parse_default raw <> Panic.
 Proof.
-  unfold np_parse_rule. destruct (np_trim_space data); [discriminate|]. destruct b.
+  unfold np_parse_default. apply np_bind_not_panic; [apply np_parse_actions_total|]. intros acts _.
+  apply np_bind_not_panic.
+  - generalize 0 false. induction acts as [|a t IH]; intros p h; cbn [np_pda_loop]; [discriminate|].
+    repeat match goal with
+           | |- (if ?c then _ else _) <> _ => destruct c
+           | |- match ?x with _ => _ end <> _ => destruct x
+           end; try discriminate; apply IH.
+  - intros ph _. destruct (fst ph =? 0); [discriminate|]. destruct (negb (snd ph)); discriminate.
+Qed.
+
+Lemma np_parse_default_disr raw p acts : np_parse_default raw = Ok (p, acts) -> existsb ra_disr acts = true.
+Proof.
+  unfold np_parse_default. destruct (np_parse_actions raw) as [a| |]; cbn [np_bind]; try discriminate.
+  destruct (np_pda_loop a 0 false) as [ph| |] eqn:E; cbn [np_bind]; try discriminate.
+  destruct (fst ph =? 0); [discriminate|]. destruct (snd ph) eqn:Es; cbn [negb]; [|discriminate].
+  intros H; inversion H; subst. destruct (np_pda_loop_spec _ _ _ _ E Es) as [K|K]; [discriminate|exact K].
+Qed.
+
+Lemma np_defaults_build_spec : forall dl m,
+  np_defs_ok m -> np_defaults_build dl m <> Panic /\ (forall m', np_defaults_build dl m = Ok m' -> np_defs_ok m').
+Proof.
+  induction dl as [|raw t IH]; intros m Hm; cbn [np_defaults_build].
+  - split; [discriminate|]. intros m' H; inversion H; subst; exact Hm.
+  - pose proof (np_parse_default_total raw) as Hp.
+    destruct (np_parse_default raw) as [[p acts]| |] eqn:E; cbn [np_bind]; [|split; [discriminate|intros; discriminate]|congruence].
+    destruct (existsb _ m); [split; [discriminate|intros; discriminate]|].
+    apply IH. apply Forall_app; split; [exact Hm|]. constructor; [|constructor]. cbn. eapply np_parse_default_disr; exact E.
+Qed.
+
+Lemma np_defaults_spec dl : np_defaults dl <> Panic /\ (forall m, np_defaults dl = Ok m -> np_defs_ok m).
+Proof.
+  unfold np_defaults. destruct (np_defaults_build_spec dl [] (Forall_nil _)) as [Hnp Hok].
+  destruct (np_defaults_build dl []) as [m| |]; cbn [np_bind]; [|split; [discriminate|intros; discriminate]|congruence].
+  split; [discriminate|]. intros m' H; inversion H; subst.
+  destruct (existsb _ m); [apply Hok; reflexivity|].
+  apply Forall_app; split; [apply Hok; reflexivity|]. constructor; [reflexivity|constructor].
+Qed.
+
+Lemma np_defmap_find_ok : forall m p d, np_defs_ok m -> np_defmap_find p m = Some d -> existsb ra_disr d = true.
+Proof.
+  induction m as [|[q a] t IH]; intros p d Hm; cbn [np_defmap_find]; [discriminate|].
+  inversion Hm; subst. destruct (q =? p); [intros H; inversion H; subst; assumption | apply IH; assumption].
+Qed.
+
+Lemma np_last_disr_some : forall l acc, (existsb ra_disr l = true \/ acc <> None) -> np_last_disr l acc <> None.
+Proof.
+  induction l as [|a t IH]; intros acc H; cbn [np_last_disr].
+  - destruct H as [H|H]; [discriminate|exact H].
+  - apply IH. cbn [existsb] in H. destruct (ra_disr a); [right; discriminate|]. destruct H as [H|H]; [left; exact H|right; exact H].
+Qed.
+
+(* mergeActions never produces an action with a nil F: the picked default disruptive action exists *)
+Lemma np_merge_no_nil origin d : existsb ra_disr d = true -> Forall (fun o => o <> None) (np_merge origin d).
+Proof.
+  intros Hd. unfold np_merge. repeat (apply Forall_app; split).
+  - apply Forall_forall. intros x Hx. apply in_map_iff in Hx as [y [<- _]]. discriminate.
+  - apply Forall_forall. intros x Hx. apply in_map_iff in Hx as [y [<- _]]. discriminate.
+  - destruct (existsb _ origin); [constructor|]. constructor; [|constructor].
+    apply np_last_disr_some. left; exact Hd.
+Qed.
+
+Lemma np_apply_merged_total : forall l r, Forall (fun o => o <> None) l -> np_apply_merged r l <> Panic.
+Proof.
+  induction l as [|o t IH]; intros r Hl; cbn [np_apply_merged]; [discriminate|].
+  inversion Hl; subst. destruct o as [a|]; [|congruence].
+  destruct (np_is_metadata (ra_key a)); [apply IH; assumption|].
+  apply np_cbind_not_panic; [apply np_action_init_total|]. intros; apply IH; assumption.
+Qed.
+
+Lemma np_map_some_no_nil {A} (l : list A) : Forall (fun o : option A => o <> None) (map Some l).
+Proof. apply Forall_forall. intros x Hx. apply in_map_iff in Hx as [y [<- _]]. discriminate. Qed.
+
+Lemma np_apply_parsed_total defs r acts : np_defs_ok defs -> np_apply_parsed defs r acts <> Panic.
+Proof.
+  intros Hd. unfold np_apply_parsed.
+  apply np_cbind_not_panic; [apply np_apply_actions_total|]. intros r1 _.
+  apply np_apply_merged_total.
+  destruct (np_defmap_find (cr_phase r1) defs) as [d|] eqn:E.
+  - apply np_merge_no_nil. eapply np_defmap_find_ok; eassumption.
+  - apply np_map_some_no_nil.
+Qed.
+
+Lemma np_compile_actions_total defs r text : np_defs_ok defs -> np_compile_actions defs r text <> Panic.
+Proof.
+  intros Hd. unfold np_compile_actions. apply np_bind_not_panic; [apply np_parse_actions_total|].
+  intros acts _. apply np_apply_parsed_total; exact Hd.
+Qed.
+
+Lemma np_parse_rule_total dl b data : np_parse_rule dl b data <> Panic.
+Proof.
+  unfold np_parse_rule. destruct (np_trim_space data); [discriminate|].
+  destruct (np_defaults_spec dl) as [Hnp Hok].
+  apply np_bind_not_panic; [exact Hnp|]. intros defs Hdefs. specialize (Hok defs Hdefs).
+  destruct b.
   - apply np_bind_not_panic; [apply np_parse_action_operator_total|]. intros [[vars op] acts] _.
     apply np_bind_not_panic; [apply np_parse_variables_total|]. intros pv _.
     apply np_bind_not_panic; [apply np_parse_operator_total|]. intros o _.
     match goal with |- (if ?c then _ else _) <> _ => destruct c end; [discriminate|].
-    destruct (np_len acts =? 0); [discriminate|]. apply np_compile_actions_total.
-  - apply np_bind_not_panic; [apply np_maybe_remove_quotes_total|]. intros raw _. apply np_compile_actions_total.
+    destruct (np_len acts =? 0); [discriminate|]. apply np_compile_actions_total; exact Hok.
+  - apply np_bind_not_panic; [apply np_maybe_remove_quotes_total|]. intros raw _. apply np_compile_actions_total; exact Hok.
 Qed.
 
 Lemma np_rules_add_total rules r : np_rules_add rules r <> Panic.
@@ -57,9 +161,13 @@ Proof.
   unfold np_rules_delete_by_msg. apply np_bind_not_panic; [apply np_delete_by_msg_total|]. intros; discriminate.
 Qed.
 
-Lemma np_evaluate_line_total rules l : np_evaluate_line rules l <> Panic.
+Lemma np_withr_total {A B} (o : outcome A) (b : B) : o <> Panic -> np_lift (do! x <- o; Ok (x, b)) <> Panic.
+Proof. destruct o; cbn; congruence. Qed.
+
+Lemma np_evaluate_line_total st l : np_evaluate_line st l <> Panic.
 Proof.
-  unfold np_evaluate_line. destruct (Z.eqb_spec (np_len l) 0); [discriminate|].
+  unfold np_evaluate_line. destruct st as [rules dl].
+  destruct (Z.eqb_spec (np_len l) 0); [discriminate|].
   pose proof (np_len_nonneg l). at_ok l 0.
   destruct (isb c 35); [discriminate|].
   destruct (np_cut 32 l) as [[dir opts0] fnd].
@@ -68,13 +176,13 @@ Proof.
     at_ok opts0 0. at_ok opts0 (np_len opts0 - 1). discriminate.
   - intros opts _.
     repeat match goal with |- (if ?c then _ else _) <> _ => destruct c end; try discriminate;
-      try (apply np_cbind_not_panic; [apply np_parse_rule_total | intros; apply np_lift_not_panic; apply np_rules_add_total]);
-      try (apply np_lift_not_panic; first [apply np_rules_add_total | apply np_rules_delete_by_msg_total]).
+      try (apply np_cbind_not_panic; [apply np_parse_rule_total | intros; apply np_withr_total; apply np_rules_add_total]);
+      try (apply np_withr_total; first [apply np_rules_add_total | apply np_rules_delete_by_msg_total]).
 Qed.
 
-Lemma np_parse_lines_total : forall lines buf inbt rules, np_parse_lines lines buf inbt rules <> Panic.
+Lemma np_parse_lines_total : forall lines buf inbt st, np_parse_lines lines buf inbt st <> Panic.
 Proof.
-  induction lines as [|raw rest IH]; intros buf inbt rules; cbn [np_parse_lines].
+  induction lines as [|raw rest IH]; intros buf inbt st; cbn [np_parse_lines].
   - destruct inbt; discriminate.
   - set (line := np_trim_space (np_drop_cr raw)).
     destruct (Z.eqb_spec (np_len line) 0); [apply IH|].
@@ -87,9 +195,12 @@ Proof.
 Qed.
 
 (* compiling ANY configuration text never panics: parseString's line[0] / line[len-1], evaluateLine's
-   l[0] / opts[0] / opts[len-1], and every scanner / Init below the modelled directives *)
+   l[0] / opts[0] / opts[len-1], every scanner / Init below the modelled directives, and mergeActions
+   (the inherited default disruptive action always exists, so no action with a nil F is initialised) *)
 Theorem np_compile_config_total : forall text, np_compile_config text <> Panic.
-Proof. intros; apply np_parse_lines_total. Qed.
+Proof.
+  intros. unfold np_compile_config. apply np_cbind_not_panic; [apply np_parse_lines_total|]. intros; discriminate.
+Qed.
 
 (* ---- the invariant request time relies on: every compiled setvar has its key macro ---- *)
 Definition np_rule_wf (r : np_crule) : Prop := Forall (fun sv => sv_key sv <> None) (cr_setvars r).
@@ -115,16 +226,29 @@ Proof.
     eapply IH; [eapply np_action_init_wf; eassumption | exact H].
 Qed.
 
-Lemma np_compile_actions_wf r text r' : np_rule_wf r -> np_compile_actions r text = Ok (Some r') -> np_rule_wf r'.
+Lemma np_apply_merged_wf : forall l r r', np_rule_wf r -> np_apply_merged r l = Ok (Some r') -> np_rule_wf r'.
 Proof.
-  unfold np_compile_actions. intros Hwf H.
-  destruct (np_parse_actions text) as [acts| |]; cbn [np_bind] in H; try discriminate.
-  eapply np_apply_actions_wf; eassumption.
+  induction l as [|o t IH]; intros r r' Hwf; cbn [np_apply_merged]; intros H.
+  - inversion H; subst; exact Hwf.
+  - destruct o as [a|]; [|discriminate].
+    destruct (np_is_metadata (ra_key a)); [eapply IH; eassumption|].
+    destruct (np_action_init r (ra_key a) (ra_val a)) as [[r1|]| |] eqn:E; cbn [np_cbind] in H; try discriminate.
+    eapply IH; [eapply np_action_init_wf; eassumption | exact H].
 Qed.
 
-Lemma np_parse_rule_wf b data r : np_parse_rule b data = Ok (Some r) -> np_rule_wf r.
+Lemma np_compile_actions_wf defs r text r' : np_rule_wf r -> np_compile_actions defs r text = Ok (Some r') -> np_rule_wf r'.
 Proof.
-  unfold np_parse_rule. destruct (np_trim_space data); [discriminate|]. destruct b.
+  unfold np_compile_actions, np_apply_parsed. intros Hwf H.
+  destruct (np_parse_actions text) as [acts| |]; cbn [np_bind] in H; try discriminate.
+  destruct (np_apply_actions r _) as [[r1|]| |] eqn:E; cbn [np_cbind] in H; try discriminate.
+  eapply np_apply_merged_wf; [eapply np_apply_actions_wf; eassumption | exact H].
+Qed.
+
+Lemma np_parse_rule_wf dl b data r : np_parse_rule dl b data = Ok (Some r) -> np_rule_wf r.
+Proof.
+  unfold np_parse_rule. destruct (np_trim_space data); [discriminate|].
+  destruct (np_defaults dl) as [defs| |]; cbn [np_bind]; try discriminate.
+  destruct b.
   - destruct (np_parse_action_operator data) as [[[vars op] acts]| |]; cbn [np_bind]; try discriminate.
     destruct (np_parse_variables vars) as [pv| |]; cbn [np_bind]; try discriminate.
     destruct (np_parse_operator op) as [o| |]; cbn [np_bind]; try discriminate.
@@ -147,30 +271,32 @@ Proof.
   unfold np_rules_wf. rewrite !Forall_forall. intros H x Hx. apply filter_In in Hx as [Hx _]. auto.
 Qed.
 
-Lemma np_evaluate_line_wf rules l rules' : np_rules_wf rules -> np_evaluate_line rules l = Ok (Some rules') -> np_rules_wf rules'.
+Lemma np_withr_inv {A B} (o : outcome A) (b : B) st : np_lift (do! x <- o; Ok (x, b)) = Ok (Some st) -> o = Ok (fst st).
+Proof. destruct o; cbn; intros H; try discriminate. inversion H; reflexivity. Qed.
+
+Lemma np_evaluate_line_wf st l st' : np_rules_wf (fst st) -> np_evaluate_line st l = Ok (Some st') -> np_rules_wf (fst st').
 Proof.
-  unfold np_evaluate_line. intros Hwf.
+  unfold np_evaluate_line. destruct st as [rules dl]. cbn [fst]. intros Hwf.
   destruct (np_len l =? 0); [discriminate|].
   destruct (np_at l 0) as [c| |]; cbn [np_bind]; try discriminate.
   destruct (isb c 35); [discriminate|].
   destruct (np_cut 32 l) as [[dir opts0] fnd].
   match goal with |- np_bind ?o _ = _ -> _ => destruct o as [opts| |]; cbn [np_bind]; try discriminate end.
-  assert (Hadd : forall b, (do? r <- np_parse_rule b opts; np_lift (np_rules_add rules r)) = Ok (Some rules') -> np_rules_wf rules').
-  { intros b H. destruct (np_parse_rule b opts) as [[r|]| |] eqn:E; cbn [np_cbind] in H; try discriminate.
-    destruct (np_rules_add rules r) as [x| |] eqn:E2; cbn [np_lift] in H; try discriminate. inversion H; subst.
-    eapply np_rules_add_wf; [exact Hwf | eapply np_parse_rule_wf; exact E | exact E2]. }
+  assert (Hadd : forall b, (do? r <- np_parse_rule dl b opts; np_lift (do! x <- np_rules_add rules r; Ok (x, dl))) = Ok (Some st') -> np_rules_wf (fst st')).
+  { intros b H. destruct (np_parse_rule dl b opts) as [[r|]| |] eqn:E; cbn [np_cbind] in H; try discriminate.
+    apply np_withr_inv in H. eapply np_rules_add_wf; [exact Hwf | eapply np_parse_rule_wf; exact E | exact H]. }
   repeat match goal with |- (if ?c then _ else _) = _ -> _ => destruct c end; try discriminate; try apply Hadd.
-  - intros H. match type of H with np_lift ?o = _ => destruct o as [x| |] eqn:E2; cbn [np_lift] in H; try discriminate end.
-    inversion H; subst. eapply np_rules_add_wf; [exact Hwf | | exact E2]. unfold np_rule_wf; cbn; constructor.
-  - unfold np_rules_delete_by_msg. intros H.
-    match type of H with np_lift (np_bind ?o _) = _ => destruct o; cbn [np_bind np_lift] in H; try discriminate end.
-    inversion H; subst. apply np_filter_wf; exact Hwf.
+  - intros H. apply np_withr_inv in H. eapply np_rules_add_wf; [exact Hwf | | exact H]. unfold np_rule_wf; cbn; constructor.
+  - intros H. apply np_withr_inv in H. unfold np_rules_delete_by_msg in H.
+    match type of H with np_bind ?o _ = _ => destruct o; cbn [np_bind] in H; try discriminate end.
+    injection H as H1. rewrite <- H1. apply np_filter_wf; exact Hwf.
+  - intros H; inversion H; subst; exact Hwf.
 Qed.
 
-Lemma np_parse_lines_wf : forall lines buf inbt rules rules',
-  np_rules_wf rules -> np_parse_lines lines buf inbt rules = Ok (Some rules') -> np_rules_wf rules'.
+Lemma np_parse_lines_wf : forall lines buf inbt st st',
+  np_rules_wf (fst st) -> np_parse_lines lines buf inbt st = Ok (Some st') -> np_rules_wf (fst st').
 Proof.
-  induction lines as [|raw rest IH]; intros buf inbt rules rules' Hwf; cbn [np_parse_lines].
+  induction lines as [|raw rest IH]; intros buf inbt st st' Hwf; cbn [np_parse_lines].
   - destruct inbt; [discriminate|]. intros H; inversion H; subst; exact Hwf.
   - set (line := np_trim_space (np_drop_cr raw)).
     destruct (np_len line =? 0); [apply IH; exact Hwf|].
@@ -179,12 +305,23 @@ Proof.
     destruct (np_at line (np_len line - 1)) as [c0| |]; cbn [np_bind]; try discriminate.
     match goal with |- (if ?c then _ else _) = _ -> _ => destruct c end; [apply IH; exact Hwf|].
     destruct (isb c0 92); [apply IH; exact Hwf|].
-    destruct (np_evaluate_line rules (buf ++ line)) as [[rs|]| |] eqn:E; cbn [np_cbind]; try discriminate.
+    destruct (np_evaluate_line st (buf ++ line)) as [[rs|]| |] eqn:E; cbn [np_cbind]; try discriminate.
     apply IH. eapply np_evaluate_line_wf; eassumption.
 Qed.
 
 Theorem np_compile_config_wf : forall text rules, np_compile_config text = Ok (Some rules) -> np_rules_wf rules.
-Proof. intros text rules. apply np_parse_lines_wf. constructor. Qed.
+Proof.
+  intros text rules. unfold np_compile_config.
+  destruct (np_parse_lines _ _ _ _) as [[st|]| |] eqn:E; cbn [np_cbind]; try discriminate.
+  intros H; inversion H; subst. eapply np_parse_lines_wf; [|exact E]. constructor.
+Qed.
+
+(* the seeded variant of mergeActions (block is skipped when the default disruptive action is picked)
+   reaches the nil F: documentation of seeded/C07-j on the model *)
+Example np_merge_skipping_block_reaches_nil :
+  np_last_disr (filter (fun a => negb (np_is_block a))
+                 [ {| ra_key := bs "phase"; ra_val := bs "1"; ra_disr := false |}; {| ra_key := bs "block"; ra_val := []; ra_disr := true |} ]) None = None.
+Proof. reflexivity. Qed.
 
 (* ---- request time ---- *)
 Lemma np_run_setvars_total base : forall svs kv, Forall (fun sv => sv_key sv <> None) svs -> np_run_setvars base svs kv <> Panic.
@@ -197,7 +334,7 @@ Qed.
 Lemma np_run_rule_total base r st : np_rule_wf r -> np_run_rule base r st <> Panic.
 Proof.
   intros Hwf. unfold np_run_rule. destruct st as [kv log].
-  destruct (cr_marker r); [discriminate|]. destruct (cr_hasop r); [discriminate|].
+  destruct (cr_marker r); [discriminate|]. destruct (cr_hasop r || cr_disr r); [discriminate|].
   apply np_bind_not_panic; [apply np_run_setvars_total; exact Hwf|]. intros kv' _.
   apply np_bind_not_panic; [destruct (cr_msg r); [apply np_expand_total|discriminate]|]. intros m _.
   apply np_bind_not_panic; [destruct (cr_logdata r); [apply np_expand_total|discriminate]|]. intros; discriminate.
